@@ -44,7 +44,16 @@ Sample(idx) == /\ len > 0
 
 LenQuery == UNCHANGED vars /\ Emit("Len", <<>>, <<len>>)
 
-Next == Add \/ (\E idx \in IndexVectors : Sample(idx)) \/ LenQuery
+(* update_priority of the prioritized subclasses (after sampling a batch): the storage abstraction does *)
+(* not see priorities, so whatever is written, the stored transitions and what any later sample may     *)
+(* return stay the same.  w indexes the binding's table of priority values (below, at and above the     *)
+(* initial priority 1).  For the plain ReplayBuffer the binding does nothing.                           *)
+Weights == 1..3
+Reweigh(w) == /\ len > 0
+              /\ UNCHANGED vars
+              /\ Emit("Reweigh", <<w>>, <<>>)
+
+Next == Add \/ (\E idx \in IndexVectors : Sample(idx)) \/ LenQuery \/ (\E w \in Weights : Reweigh(w))
 
 Spec == Init /\ [][Next]_vars
 
